@@ -4,6 +4,7 @@
   paths of storage_engine/mod.rs). Helper lemmas: ILV.Lemmas.Incr.
 -/
 import ILV.Lemmas.IncrRun
+import ILV.Lemmas.IncrNoMat
 namespace ILV.Props.C18
 open ILV.C18
 
@@ -97,6 +98,23 @@ theorem C18_valid_is_fresh (B : List Name) (h : List Step) (hs : safe B init h =
 theorem C18_snapshot_current (B : List Name) (h : List Step) (hs : safe B init h = true) :
     (run h).snap = mkSnap (run h) :=
   (inv_run h hs).snap
+
+/-- **What the server can reach.** On the pinned tree nothing but the explicit
+    `materialize_derived_relation` call ever stores a materialisation (`auto_materialize_rule` fails),
+    and the protocol handler never makes that call. For EVERY history without `mat` steps and EVERY
+    rule set (derived-on-derived chains, recursion, anything the catalogue accepts) the published
+    snapshot is the current facts plus all rules, so the engine under test evaluates literally the
+    same program over the same tuples as a fresh evaluation. -/
+theorem C18_without_materialize (h : List Step) (hs : h.all (fun st => !(isMat st)) = true) :
+    snapDb (run h) = fresh (run h) ∧ ∀ i, (run h).inc = some i → validMats i = [] := by
+  have hI := nomat_runFrom h (s := init) ⟨rfl, fun i hi => by simp [init] at hi⟩ hs
+  refine ⟨nomat_snapDb hI, ?_⟩
+  intro i hi
+  simp [validMats, hI.empty i hi]
+
+/-- its hypothesis on DESIGN's original witness (no `mat` step), with incremental maintenance on. -/
+example : ([.idx, .ins nF [[1]], .reg cAF, .reg cBA, .ins nF [[2]], .q qB] : List Step).all
+    (fun st => !(isMat st)) = true := by decide
 
 /-- a non-trivial safe history: two clauses for `b` over `f`, `g`; materialised; used by a query while
     valid (`[[1],[2]]` comes out of the merged snapshot, the prefix holds no rule); invalidated by an
